@@ -51,17 +51,30 @@ func httpBody(c *runner.Ctx) {
 		body      string
 		panics    bool
 		doomed    bool
+		wild      bool
 		vars      map[string]interface{}
 	}
 	var reqs []*request
 	for i := 0; i < nReq; i++ {
 		g := &gen{c: c, w: w, budget: 10}
 		root := g.genSet("Query", 0)
+		if c.Choose(4, "directives") == 1 {
+			g.dirs = true
+			g.decorate(root)
+		}
 		r := &request{idx: i, root: root, text: g.text(root, "")}
+		if g.dirs {
+			r.vars = dirVars()
+		}
 		if c.Choose(6, "doomed-request") == 1 {
 			c.Fault("unexecutable-directive")
 			r.doomed = true
 			r.text, r.vars = doomedQuery(c)
+		}
+		if !r.doomed && c.Choose(6, "wild-request") == 1 {
+			c.Fault("arbitrary-arguments")
+			r.wild = true
+			r.text, r.vars = wildQuery(c)
 		}
 		r.cancelAt = c.Biased(6, 400, "http-cancel")
 		if c.Biased(4, 750, "http-panic") > 0 {
@@ -91,7 +104,7 @@ func httpBody(c *runner.Ctx) {
 			body, _ := json.Marshal(map[string]interface{}{"query": r.text, "variables": vars})
 			req := httptest.NewRequest("POST", "/graphql", bytes.NewReader(body)).WithContext(ctx)
 			rec := httptest.NewRecorder()
-			if r.panics && !r.doomed {
+			if r.panics && !r.doomed && !r.wild {
 				ev := &evaluator{w: w, touched: map[string]bool{}}
 				ev.object("Query", 0, r.root, nil)
 				for k := range ev.touched {
@@ -141,6 +154,16 @@ func httpBody(c *runner.Ctx) {
 		}
 		if strings.Contains(r.body, "SECRET-panic") && !strings.Contains(r.body, "errors") {
 			c.Violate("panic-leaked-into-data", "%s", r.body)
+		}
+		if r.wild {
+			// arbitrary arguments: data or an error, as long as it is an answer
+			if !r.cancelled {
+				var resp map[string]interface{}
+				if err := json.Unmarshal([]byte(r.body), &resp); err != nil {
+					c.Violate("http-response-not-json", "%q: %v\nquery: %s variables: %v", r.body, err, r.text, r.vars)
+				}
+			}
+			continue
 		}
 		if r.doomed && !r.cancelled {
 			var resp struct {
